@@ -62,6 +62,8 @@ def tamperings(evs):
         f(e2)
         out.append((name, prop, pipeline.renumber(e2)))
     mut("dump after an edit reports the old coefficient", "C06", lambda e: e[first(e, "dump", 1)]["rows"][0].__setitem__(1, {"j": 1, "v": "1"}))
+    mut("the dumped column store has one column's count one too large", "C06", lambda e: e[first(e, "dump", 1)]["store"]["cnt"].__setitem__(0, e[first(e, "dump", 1)]["store"]["cnt"][0] + 1))
+    mut("the dumped logical column of row 0 has the wrong upper bound", "C06", lambda e: e[first(e, "dump", 1)]["store"]["lgup"].__setitem__(0, "5"))
     mut("the edit event is dropped from the trace", "C06", lambda e: e.pop(first(e, "change_coef")))
     mut("exact solve reports INFEASIBLE instead of OPTIMAL", "C02", lambda e: e[first(e, "exact")].update(status=2))
     mut("returned x is off by one in one component", "C01", lambda e: e[first(e, "exact")]["x"].__setitem__(1, "3/2"))
@@ -118,6 +120,23 @@ def model_mutations(work):
                            cwd=d, stdout=subprocess.PIPE, stderr=subprocess.STDOUT, text=True, timeout=900)
         m = re.search(r"Invariant (\w+) is violated", r.stdout)
         res.append(dict(trace="MC_LPWrite/" + fam, tampering="model mutation: " + name, expected_property="C08", rejected=bool(hit and m), verdict=(m.group(0) if m else None)))
+        shutil.rmtree(d, ignore_errors=True)
+    # the column-store model: a transcription slip of the kind a code change would make must violate MC_ColStore
+    cmuts = [("delrows does not mark a column it emptied", 'IN IF f.cnt[j] = 0 THEN Mark(f, f.beg[j], 1) ELSE f', 'IN f'),
+             ("appending in place at the end of the used space forgets matfree--", '!.free = IF k = s.cap - s.free THEN @ - 1 ELSE @]', '!.free = @]'),
+             ("a column added without entries does not get the dummy mark", 'THEN [Mark(g, at, 1) EXCEPT', 'THEN [g EXCEPT')]
+    for k, (name, old, new) in enumerate(cmuts):
+        d = os.path.join(work, "csmut%d" % k)
+        os.makedirs(d)
+        for f in ("ColStore.tla", "MC_ColStore.tla", "MC_ColStore_quick.cfg"):
+            shutil.copy(os.path.join(src, f), d)
+        t = open(os.path.join(d, "ColStore.tla")).read()
+        hit = old in t
+        open(os.path.join(d, "ColStore.tla"), "w").write(t.replace(old, new, 1))
+        r = subprocess.run([pipeline.TLCX, "-workers", "4", "-metadir", os.path.join(d, "meta"), "-config", "MC_ColStore_quick.cfg", "MC_ColStore.tla"],
+                           cwd=d, stdout=subprocess.PIPE, stderr=subprocess.STDOUT, text=True, timeout=900)
+        m = re.search(r"Invariant (\w+) is violated", r.stdout)
+        res.append(dict(trace="MC_ColStore", tampering="model mutation: " + name, expected_property="C06", rejected=bool(hit and m), verdict=(m.group(0) if m else None)))
         shutil.rmtree(d, ignore_errors=True)
     return res
 
